@@ -19,7 +19,8 @@ PARTIAL = ["every elimination order is proved to be a perfect elimination orderi
            "networkx clique enumeration and spanning tree are trusted; their outputs are validated per case"]
 RULE = ("BNs (C01 generator) and Markov networks / factor graphs with 2-5 variables, cards 2-3, unary, repeated and duplicate factors, "
         "connected for clique-tree targets; triangulation heuristics H1-H6 and explicit orders; 6 hash seeds; non-trivial = at least one "
-        "edge; distinct = case JSON")
+        "edge; distinct = case JSON"
+        " Also: mixed-type variable names, disconnected networks with a chordless cycle.")
 ASSUMPTIONS = ["factor graphs cannot represent two value-equal factors (their nodes are the factor objects): generated pairwise unequal"]
 BUDGET_QUICK = 90
 LEVEL_TEXT = ("Kernel-checked: assigning every factor position to exactly one clique makes the product of clique potentials equal the product "
